@@ -1,0 +1,28 @@
+//go:build verif
+
+package gtab
+
+import (
+	"bytes"
+
+	"seehuhn.de/go/sfnt/parser"
+)
+
+// Hooks for part C08C of the C08 verification harness (add-only): the
+// contextual lookup subtables (SeqContext1-3, ChainedSeqContext1-3, Gsub8_1).
+
+// VerifC08CEncodeLen exposes Subtable.encodeLen.
+func VerifC08CEncodeLen(s Subtable) int { return s.encodeLen() }
+
+// VerifC08CEncode exposes Subtable.encode.
+func VerifC08CEncode(s Subtable) []byte { return s.encode() }
+
+// VerifC08CReadSubtable runs readGsubSubtable / readGposSubtable for one
+// subtable of the given lookup type starting at pos.
+func VerifC08CReadSubtable(data []byte, pos int64, tp Type, lookupType uint16) (Subtable, error) {
+	sr := readGsubSubtable
+	if tp == TypeGpos {
+		sr = readGposSubtable
+	}
+	return sr(parser.New(bytes.NewReader(data)), pos, &LookupMetaInfo{LookupType: lookupType})
+}
